@@ -12,6 +12,20 @@ NOTE = ('Trusted: CrossHair\'s symbolic models of Python builtins, z3, the harne
         'INCOMPLETE and are not counted as discharged.')
 
 CLAIMED = {
+    'C03': ('symbolic execution of every write path against typed containers with symbolic spec parameters and a typed object '
+            'tree; reference schema predicate after every call (CrossHair/z3)', '§3 C03',
+            'Typed pg.List/pg.Dict whose ranges and size bounds are unbounded symbolic integers, and an object tree covering the '
+            'value-spec vocabulary, are hit by every mutator with symbolic arguments and value kinds (incl. pre-typed containers); '
+            'an independent predicate over the declared schema must hold after every call, successful or failed.'),
+    'C05': ('symbolic execution of to_json/from_json (object and string form), save/load histories on both file systems, '
+            'record sequences, pickle/deepcopy (CrossHair/z3)', '§3 C05',
+            'Value skeletons with symbolic leaves and selector-chosen strings/floats round-trip to an equal, same-typed, '
+            'well-formed value; symbolic 3-step save histories over tricky paths obey last-write-wins on the in-memory and '
+            'standard file systems.'),
+    'C10': ('symbolic execution of KeyPath parse/format/arithmetic/ordering, traverse/flatten/canonicalize, KeyPathSet vs '
+            'Python sets (CrossHair/z3)', '§3 C10',
+            'Key kinds, characters and integers are symbolic (format stub off); path arithmetic is compared with tuple '
+            'arithmetic; KeyPathSet operations with symbolic membership bits are compared with Python sets, including aliasing.'),
     'C01': ('symbolic execution of one mutating/copying operation from every skeleton tree + depth-2 histories; tree-integrity '
             'invariant (CrossHair/z3)', '§3 C01',
             'Every operation of the list/dict/object/rebind/copy surface is applied at a symbolic node of constructor-built '
